@@ -6,7 +6,7 @@
    release).  All statements hold for every plan and every schedule, by induction over the schedule. *)
 From Coq Require Import List Arith Bool.
 Import ListNotations.
-From PySM Require Import Impl.Conc Proofs.ConcProofs.
+From PySM Require Import Impl.Conc Impl.ConcNested Proofs.ConcProofs Proofs.ConcNestedProofs.
 
 (* the callback sequences of different events never overlap: the log is a sequence of complete
    Begin/End blocks, plus at most one block still open *)
@@ -57,6 +57,38 @@ Theorem C06_race_schedule_processed :
   finished w 0 = true /\ finished w 1 = true /\ w_queue w = [] /\ begun (w_log w) = [(0, 0); (1, 0)].
 Proof. exact race_schedule_no_longer_strands. Qed.
 Print Assumptions C06_race_schedule_processed.
+
+(* ---- callbacks that themselves send events (nested sends), Impl/ConcNested.v ----
+   [children e] are the events the callbacks of e send while they run; every such send finds the lock
+   taken by the thread running the callback and only enqueues.  For every family of nested sends,
+   every plan and every schedule, both granularities: *)
+Theorem C06_nested_mutual_exclusion :
+  forall children g plan sched,
+    let w := nrun children g sched (ninit plan) in
+    closed (nw_log w) \/ exists e t, opened (nw_log w) e t.
+Proof. exact nested_mutual_exclusion. Qed.
+Print Assumptions C06_nested_mutual_exclusion.
+
+(* what was begun, followed by what is queued, is exactly what was put, in put order - whoever put
+   it: events are processed in the order they were sent, none lost, none invented *)
+Theorem C06_nested_fifo :
+  forall children g plan sched,
+    let w := nrun children g sched (ninit plan) in begun (nw_log w) ++ nw_queue w = nw_puts w.
+Proof. exact nested_fifo. Qed.
+Print Assumptions C06_nested_fifo.
+
+Theorem C06_nested_at_most_once :
+  forall children g plan sched,
+    let w := nrun children g sched (ninit plan) in NoDup (nw_puts w) -> NoDup (begun (nw_log w)).
+Proof. exact nested_at_most_once. Qed.
+Print Assumptions C06_nested_at_most_once.
+
+Theorem C06_nested_nothing_stranded :
+  forall children g plan sched,
+    let w := nrun children g sched (ninit plan) in
+    (forall t, nfinished w t) -> nw_queue w = [] /\ begun (nw_log w) = nw_puts w.
+Proof. exact nested_nothing_stranded. Qed.
+Print Assumptions C06_nested_nothing_stranded.
 
 Example C06_nonvacuous :
   let w := run Line [0; 1; 0; 1; 0; 0; 0; 0; 0; 0; 0; 0] (init (fun _ => 1)) in
